@@ -26,9 +26,10 @@ import (
 type mainFunc func(args []string, stdin io.Reader, stdout io.Writer, stderr io.Writer) error
 
 type anonssh struct {
-	cfg   *rsyncdconfig.Config
-	main  mainFunc
-	osenv *rsyncos.Env
+	cfg       *rsyncdconfig.Config
+	main      mainFunc
+	osenv     *rsyncos.Env
+	anonymous bool // no authorized_keys configured: anybody can connect
 }
 
 // env is a Environment Variable request as per RFC4254 6.4.
@@ -74,6 +75,12 @@ func (s *session) request(ctx context.Context, req *ssh.Request) error {
 
 		s.anonssh.osenv.Logf("cmdline: %q", cmdline)
 		// 2021/09/12 21:25:34 cmdline: ["rsync" "--server" "--daemon" "."]
+		if s.anonssh.anonymous &&
+			(len(cmdline) < 3 || cmdline[1] != "--server" || cmdline[2] != "--daemon") {
+			// Anonymous users may only speak the rsync daemon protocol with the
+			// configured modules, not run arbitrary rsync command lines.
+			return fmt.Errorf("anonymous SSH only permits rsync daemon mode (rsync --server --daemon .)")
+		}
 		go func() {
 			stderr := s.channel.Stderr()
 			err := s.anonssh.main(cmdline, s.channel, s.channel, stderr)
@@ -278,9 +285,10 @@ func Serve(ctx context.Context, osenv *rsyncos.Env, ln net.Listener, listener *L
 	}()
 
 	as := &anonssh{
-		cfg:   cfg,
-		main:  main,
-		osenv: osenv,
+		cfg:       cfg,
+		main:      main,
+		osenv:     osenv,
+		anonymous: listener.authorizedKeys == nil,
 	}
 
 	config := &ssh.ServerConfig{
